@@ -43,6 +43,10 @@ CLAIMED['C08'] = ('exploration', 'deterministic simulation: seeded channel specs
     'Seeded search over mode (Basic/ERTM), MTU, MPS (down to 23), transmit window 1..63, FCS requested by neither/one/both ends, SDU size sequences in both directions including >64 segments and exactly k*MPS, latency profiles. Wire monitor at each sender boundary: TxSeq advances by one mod 64, unacknowledged I-frames <= the window the peer advertised, SAR pattern consistent with the announced SDU length, payload <= peer MPS, FCS verified by an independent CRC-16; every SDU delivered once, intact, in order. Set-up scenario: all pairs of (mode, FCS request, FCS feature) incl. mismatching modes must end with both ends open in the same mode and FCS setting (and data flows) or both closed with an error to the caller; never a hang or a configuration ping-pong. Sampling, not proof.',
     'Trusted: latency below the 2 s retransmission timer; no loss (ERTM retransmission paths are not exercised: the property speaks of order-preserving delays only); an endpoint that requests FCS has the FCS feature; peer is bumble.', 'DESIGN.md §5 C08')
 
+CLAIMED['C10'] = ('exploration', 'deterministic simulation: seeded attribute databases and raw ATT request programs against the real server, on the fixed and on an enhanced bearer',
+    'Seeded search over generated databases (services, includes, characteristics with every property mix, descriptors, 16/128-bit UUIDs, values 0..512 bytes, static and sync/async callback values, several permission masks), server MTU, one MTU exchange at an arbitrary point, and programs of raw ATT PDUs over all opcodes with valid and invalid handles, inverted ranges, empty and over-long handle sets, offsets past the end, commands, spurious confirmations, undefined opcodes, plus notify/indicate calls with delayed confirmations. Oracle: exactly one response per request (the matching opcode or an Error Response naming it), nothing for commands / confirmations / unknown non-requests, every server PDU <= the bearer ATT_MTU, at most one indication awaiting confirmation per bearer. Sampling, not proof.',
+    'Trusted: the raw client obeys ATT (one request at a time, PDUs within ATT_MTU, well-formed layouts for defined opcodes - malformed ones are C17); unencrypted link.', 'DESIGN.md §5 C10')
+
 NOT_YET = {}
 
 
